@@ -265,6 +265,7 @@ def parseOp (ts : List String) : Option (OpClass × String) :=
   | ["put"] => some (.put, "")
   | ["lput", x] => (Hex.toStr? x).map fun i => (.lsnPutOp, i)
   | ["fput", m] => (Hex.toStr? m).map fun x => (.failurePut x, "")
+  | ["xput", m] => (Hex.toStr? m).map fun x => (.excFailurePut x, "")
   | ["abegin"] => some (.adapterBegin, "")
   | ["aend", "R", f] => some (.adapterEnd (.ret (f == "t")), "")
   | "aend" :: "E" :: rest => match parseExc rest with
